@@ -41,7 +41,8 @@ OPEN_STATEMENTS = [
     'coefficients (each pair / orbital once, or twice at half time, mirrored; one constant phase generator in controlled steps); that '
     'the Model generator lists are what the real step classes emit is checked operation by operation (stream step-generators: kind, '
     'qubit positions, angle, control), and that a gate is exp(-i angle generator) is the C14 gate correspondence',
-    'basis changes (bogoliubov_transform inside SPLIT_OPERATOR / LOW_RANK) are opaque markers in the Model; the operator identity '
+    'basis changes (bogoliubov_transform inside SPLIT_OPERATOR / LOW_RANK) are opaque markers in the Model (their telescoping to the '
+    'identity in the low-rank step is lr_basis_changes_telescope, the matrices really handed over are recorded by the harness); the operator identity '
     'U n_i U^-1 = orbital number operator is the C14 conjugation oracle, and the unitary of whole circuits is a 1e-8 float comparison',
     'controlled_structure / controlled_phase are about the Model lists and leaf times (total phase exp(-i t constant)); identity on '
     'control 0 and the phase on real circuits: oracle',
@@ -1239,6 +1240,44 @@ def ops_stream(ctx):
                 continue
             stp, ops = res
             cs = [np.asarray(m) for m in stp.scaled_density_density_matrices]
+            # basis-change bookkeeping (theorem lr_basis_changes_telescope): record the matrices and qubit lists handed to
+            # bogoliubov_transform by the real trotter_step
+            recorded = []
+            orig_bt = lr.bogoliubov_transform
+
+            def spy(qs_, M, *a, **k):
+                recorded.append(([pos[q] for q in qs_], np.array(M)))
+                return orig_bt(qs_, M, *a, **k)
+            lr.bogoliubov_transform = spy
+            try:
+                list(cirq.flatten_op_tree(stp.trotter_step(qubits, time, control if ctl else None)))
+            finally:
+                lr.bogoliubov_transform = orig_bt
+            W1 = np.asarray(stp.one_body_basis_change_matrix)
+            Bs = [np.asarray(b) for b in stp.basis_change_matrices]
+            expect = [W1.T.conj()]
+            prior = W1
+            for B in Bs:
+                expect.append(prior @ B.T.conj())
+                prior = B
+            expect.append(prior)
+            st.float_comparisons += 2
+            if len(recorded) != len(expect) or any(maxdiff(r_[1], e_) > 1e-12 for r_, e_ in zip(recorded, expect)):
+                st.disagree('low rank step: matrices handed to bogoliubov_transform (W^-1, prior B_j^-1, ..., B_J)', case,
+                            len(recorded), len(expect))
+            else:
+                prod = np.eye(n, dtype=complex)
+                for _, M in recorded:
+                    prod = prod @ M
+                if not maxdiff(prod, np.eye(n)) <= 1e-9:
+                    st.violate('low rank step: the basis changes do not multiply to the identity', case,
+                               {'max_abs_difference': maxdiff(prod, np.eye(n))})
+                want_q = [list(range(n)) if (j_ == 0 or (j_ - 1) % 2 == 0) else list(range(n))[::-1]
+                          for j_ in range(len(recorded))]
+                # qubit orientation: call 0 and 1 before any reversal, call j >= 1 after j-1 reversals
+                if [r_[0] for r_ in recorded] != want_q:
+                    st.disagree('low rank step: qubit lists handed to bogoliubov_transform', case,
+                                [r_[0] for r_ in recorded], want_q)
             real, nswaps, other, bad = parse_step_ops(cirq, of, ops, pos, control if ctl else None, time)
             for b in bad:
                 st.violate('controlled step: ' + b[:120], case, {})
